@@ -4,7 +4,7 @@ import re
 
 CLAIMED = True
 LEVEL = 'proof'
-LEVEL_TEXT = ('Proof: 14 Coq theorems over the Gallina model of ImageRaw / ContiguousPixels / SubImage / Image '
+LEVEL_TEXT = ('Proof: 25 Coq theorems (20 in Properties/C09.v, 5 in C09_color.v) over the Gallina model of ImageRaw / ContiguousPixels / SubImage / Image '
               '(coq/Model/Imageraw.v, line-by-line incl. the raw load for all 7 raw widths x 2 data orders, the saturating '
               'nth() of RawDataIterator, the remaining_x/remaining_y/row_skip state machine as the list it yields, the five '
               'rejection tests of draw_sub_image, SubImage::new = intersection with the parent box, nested re-basing, '
@@ -15,9 +15,15 @@ LEVEL_TEXT = ('Proof: 14 Coq theorems over the Gallina model of ImageRaw / Conti
               'the drawable box and its colour stream is the pixels in row-major order with exactly w*h items (stream_is_pixels, '
               'stream_exact); rendering Image(d,o) sets q to pixel(q-o) inside the box and touches nothing else '
               '(image_draw_spec); sub_image(area) shows the parent pixels inside area intersected with the parent box '
-              '(sub_image_spec); nested sub images compose (sub_sub_compose, d_pixel_root: any nesting depth shows the root pixel() at the accumulated offset); with_center centres (with_center_spec). '
+              '(sub_image_spec); nested sub images compose (sub_sub_compose, d_pixel_root: any nesting depth shows the root pixel() at the accumulated offset); with_center centres, at box level and as a pixel map: the image centre pixel lands on c (with_center_spec, with_center_draw_spec); '
+              'a direct draw_sub_image call draws the area iff it lies inside (draw_sub_image_direct). Every statement carries the exact range '
+              'condition under which the unbounded model equals the i32/u32 code (offset_fits, area_fits, with_center_fits, direct_area_fits; '
+              'all implied by rect_ok, C09_ranges_from_rect_ok). '
               'The model is tied to the code by running the extracted model and the real library on the same inputs on every run.')
-LEVEL_NOTE = ('Trusted: Coq kernel, extraction (ExtrOcamlBasic), OCaml/Rust drivers. The hand-written model is validated by '
+LEVEL_NOTE = ('Colour types: C09_color.v composes the raw values with C::from(raw) of the C12 colour model for all 14 built-in colour types '
+              '(valid colour; raw storage value = data value with the unused bits cleared), checked by the img_typed correspondence. '
+              'new_const is modelled (None = panic) and compared with a caught panic. '
+              'Trusted: Coq kernel, extraction (ExtrOcamlBasic), OCaml/Rust drivers. The hand-written model is validated by '
               'differential testing (pixel maps, call log, number of colours a draining target pulls) and by an independent '
               'byte-level reference in the p_ search suites, not proved equal to the Rust source. Colours are raw storage values; '
               'the conversion RawUx -> colour type is the identity on the value (checked by the correspondence for the six library '
@@ -26,24 +32,33 @@ LEVEL_NOTE = ('Trusted: Coq kernel, extraction (ExtrOcamlBasic), OCaml/Rust driv
               'and draw offsets within +-2^29.')
 RULE = ('correspondence: all sizes 0..N x 0..N (N=9 quick, 16 thorough) + wide rows up to 70 px x 7 raw widths x 2 data orders: '
         'ImageRaw::new with 6 right/wrong lengths; pixel() on the box plus a 1 px frame; draw of Image::new / with_center at '
-        'random offsets (10% near +-2^20) of the image and of 1..3 nested sub images (inside / overlapping / outside / zero sized / '
-        'whole / larger areas) and direct draw_sub_image calls, on a draw_iter-only target, a native target (call log) and a '
+        'random offsets (7% near +-2^20, 3% on the i32 boundary of offset_fits) of the image and of 1..3 nested sub images (inside / overlapping / outside / zero sized / '
+        'whole / larger areas / extents 2^29, 2^30 and exactly top_left + size = i32::MAX) and direct draw_sub_image calls, on a draw_iter-only target, a native target (call log) and a '
         'draining native target (colours pulled), with target boxes containing / cutting / missing the image. '
         'search (p_*): the same inputs judged against an independent byte-level decoder of the documented layout and explicit '
         'region arithmetic (expected pixel map, one call over the box, exactly w*h colours pulled, centring).')
 EXHAUSTIVE = {'quick': False, 'thorough': False}
-ASSUMPTIONS = ['image extents within 2^29 and draw offsets within +-2^29 (range in which the unbounded model equals the '
-               'u32/usize/i32 arithmetic; the C08 part covers display-scale totality)',
-               'bits per pixel is one of 1, 2, 4, 8, 16, 24, 32 (the seven RawData types of the library)',
-               'sub image areas have non-negative sizes (u32 in the implementation)']
+ASSUMPTIONS = ['image extents within 2^29 (img_ok); bits per pixel one of 1, 2, 4, 8, 16, 24, 32 (the seven RawData types)',
+               'draw offsets: the placed box stays inside the i32 coordinate space (offset_fits: o >= i32::MIN, o + size <= i32::MAX), '
+               'the exact condition under which Rectangle::points() does not saturate; implied by |o| <= 2^29',
+               'sub image areas (area_fits): zero sized, or extents <= i32::MAX and top_left + size <= i32::MAX, the exact condition under which '
+               'Rectangle::bottom_right / intersection are computable; beyond it (e.g. sub_image(&Rectangle::new(Point::zero(), Size::new(1 << 31, 1)))) '
+               'the implementation panics with debug assertions at core/src/geometry/point.rs:279/282 (documented panic of Point + Size) and, without '
+               'them, clips to nothing; C09 makes no claim there. Implied by rect_ok (|coordinates|, extents <= 2^29)',
+               'Image::with_center (with_center_fits): center - (size - 1) / 2 stays >= i32::MIN; implied by |center| <= 2^29',
+               'a DIRECT ImageDrawable::draw_sub_image call (documented as not for user code) is covered only when the u32 sums `x as u32 + width`, '
+               '`y as u32 + height` of image_raw.rs:229-230 do not overflow (direct_area_fits; areas produced by sub_image always satisfy it); '
+               'area (1,0) 4294967295 x 1 panics at image_raw.rs:229 with overflow checks']
 TRUSTED = ['modelled, not verified: slice::get / get(a..) / get(0..k) as nth_error / skipn / firstn, usize::saturating_add, '
            'u16/u32::from_le_bytes/from_be_bytes, `byte >> n` then RawUx::new as (byte / 2^n) mod 2^bpp',
            'd_pixel for SubImage (re-basing by the area top left) is specification, SubImage has no pixel() in the library',
-           'a direct ImageDrawable::draw_sub_image call with an area outside a SubImage\'s own box is documented as '
-           'not-to-be-called; it is compared model-vs-code but not judged by the search suite']
+           'a direct ImageDrawable::draw_sub_image call (documented as not for user code) on a SubImage is judged against the ROOT image '
+           '(C09_draw_sub_image_direct_nested: the code only re-bases), except on zero sized SubImages, where it is compared model-vs-code only']
 PARTIAL = []
 
 BPPS = [1, 2, 4, 8, 16, 24, 32]
+I32_MAX = 2 ** 31 - 1
+I32_MIN = -2 ** 31
 
 
 def stride(w, bpp):
@@ -67,8 +82,16 @@ def sub_area(rng, pw, ph):
     if k < 0.85:                                  # zero sized
         w, h = rng.choice([(0, 0), (0, rng.randrange(1, 4)), (rng.randrange(1, 4), 0)])
         return (rng.randrange(-1, pw + 2), rng.randrange(-1, ph + 2), w, h)
-    if k < 0.93:                                  # the whole parent
+    if k < 0.91:                                  # the whole parent
         return (0, 0, pw, ph)
+    if k < 0.94:
+        # extents on the boundary of area_fits: 2^29, 2^30 and exactly top_left + size = i32::MAX
+        # (beyond it `Rectangle::bottom_right` panics at point.rs:279/282 and C09 makes no claim)
+        x, y = rng.randrange(-3, pw + 2), rng.randrange(-3, ph + 2)
+        big = lambda c: rng.choice([2 ** 29, 2 ** 30, I32_MAX - max(c, 0), I32_MAX - max(c, 0) - 1])
+        w = big(x) if rng.random() < 0.7 else rng.randrange(0, pw + 5)
+        h = big(y) if rng.random() < 0.7 or w < 2 ** 29 else rng.randrange(0, ph + 5)
+        return (x, y, w, h)
     return (-rng.randrange(0, 3), -rng.randrange(0, 3), pw + rng.randrange(0, 5), ph + rng.randrange(0, 5))   # larger
 
 
@@ -93,13 +116,25 @@ def draw_case(rng, pre, bpp, alt, w, h, nsub, tk=None, direct=False):
     sw, sh = region[2] - region[0], region[3] - region[1]
     mode = 1 if rng.random() < 0.25 else 0
     k = rng.random()
+    edge = False
     if direct:
         # ImageDrawable::draw_sub_image(target, area) called directly on the final drawable: no offset, the
         # area is drawn at the origin (or rejected when it is not fully inside)
         a = sub_area(rng, sw, sh)
+        if a[2] >= 2 ** 29 or a[3] >= 2 ** 29:
+            # direct call with an extent on the boundary of direct_area_fits: x as u32 + width = u32::MAX at most
+            # (rejected as "not inside"); the target box below is derived from the parent instead of the area
+            a = (max(a[0], 0), max(a[1], 0), a[2], a[3])
+            if nsub == 0:   # (on a SubImage the area is re-based first; the sums are taken at the root)
+                a = (a[0], a[1], rng.choice([a[2], 2 ** 32 - 1 - a[0]]), rng.choice([a[3], 2 ** 32 - 1 - a[1]]))
         subs += list(a)
         mode, ox, oy = 2, 0, 0
-        sw, sh = a[2], a[3]
+        sw, sh = min(a[2], sw + 5), min(a[3], sh + 5)
+    elif k < 0.03 and mode == 0:
+        # the boundary of offset_fits: the box touches i32::MAX / starts at i32::MIN
+        edge = True
+        ox = rng.choice([I32_MAX - sw, I32_MIN, I32_MAX - sw - 1])
+        oy = rng.choice([I32_MAX - sh, I32_MIN, rng.randrange(-12, 13)])
     elif k < 0.1:
         ox, oy = rng.choice([-1, 1]) * rng.randrange(2 ** 20 - 40, 2 ** 20), rng.choice([-1, 1]) * rng.randrange(2 ** 20 - 40, 2 ** 20)
     elif k < 0.3:
@@ -109,7 +144,9 @@ def draw_case(rng, pre, bpp, alt, w, h, nsub, tk=None, direct=False):
     # where the image lands (top left), to place the target box around / across it
     tx, ty = (ox - (max(sw, 1) - 1) // 2, oy - (max(sh, 1) - 1) // 2) if mode == 1 else (ox, oy)
     k = rng.random()
-    if k < 0.55:      # target contains the whole image with a margin
+    if edge:          # keep the target's own box inside i32 as well
+        bb = (max(tx - 2, I32_MIN), max(ty - 2, I32_MIN), sw + 2 - (2 if tx - 2 < I32_MIN else 0), sh + 2 - (2 if ty - 2 < I32_MIN else 0))
+    elif k < 0.55:      # target contains the whole image with a margin
         bb = (tx - 2, ty - 2, sw + 4, sh + 4)
     elif k < 0.9:     # target cuts the image
         bb = (tx + rng.randrange(-3, sw + 2), ty + rng.randrange(-3, sh + 2), rng.randrange(0, sw + 4), rng.randrange(0, sh + 4))
@@ -143,6 +180,9 @@ def gen(tier, rng, pre):
                 for ln in sorted(lens):
                     yield J(pre + 'img_new', bpp, alt, w, h, ln)
                 yield J(pre + 'img_pixels', bpp, alt, w, h, exact, rng.randrange(2 ** 30))
+                # new_const: the exact length, and a wrong one (caught panic)
+                yield J(pre + 'img_new_const', bpp, alt, w, h, exact, rng.randrange(2 ** 30))
+                yield J(pre + 'img_new_const', bpp, alt, w, h, rng.choice([exact + 1, exact + 2, exact + 1 + stride(w, bpp)]), 1)
                 for _ in range(reps):
                     yield draw_case(rng, pre, bpp, alt, w, h, 0)
                     yield draw_case(rng, pre, bpp, alt, w, h, 1, tk=2)
